@@ -60,6 +60,7 @@ type pktIn struct {
 	Rate     int64  `json:"rate"` // rateLimitBytesPerSecond handed to WritePacket (0 = unlimited)
 	Fill     []int  `json:"fill,omitempty"` // [byte, n]: body = n copies of byte (large bodies without shipping them as hex)
 	Rnd      bool   `json:"rnd,omitempty"`  // with Fill: n pseudo-random bytes seeded by byte (incompressible: gzip takes milliseconds)
+	RawCmd   bool   `json:"rawcmd,omitempty"` // pk, with cmd: the caller hands the command PRE-SERIALISED in Payload and leaves CommandPacket nil
 	Reuse    bool   `json:"reuse,omitempty"` // pk: write the SAME *TransferPacket object as the previous packet again (type and body are the previous packet's)
 }
 
@@ -270,6 +271,9 @@ func runCase1(raw json.RawMessage) interface{} {
 			if p.Cmd != nil {
 				tp.CommandPacket = p.Cmd
 				body, _ = json.Marshal(p.Cmd)
+				if p.RawCmd {
+					tp.CommandPacket, tp.Payload = nil, body
+				}
 			} else {
 				tp.Payload = body
 			}
